@@ -63,11 +63,18 @@ def _variants(evname, role):
     if n == 2:
         # transport confirmation follows Evt1 at once: the slot still holds the user's A-ASSOCIATE request
         return [('assoc_rq', lambda: e2.make_primitive(('assoc_rq',)))]
+    if n == 19:
+        # besides the slot contents: a P-DATA-TF that is a well-formed PDU but useless at DIMSE level is found out by the action
+        # of Evt10 (DT-2 / AR-6) and must then be treated as this event is (AA-8 where an association exists)
+        bad = [('pdata-bad-control-header', dec(P.PDataTfPDU, e2.pdata(1, 0x04, e2.echo_cmd())), {'through_evt10': True}),
+               ('pdata-garbage-command', dec(P.PDataTfPDU, e2.pdata(1, 3, b'\xff' * 9)), {'through_evt10': True})]
+    else:
+        bad = []
     # events that carry no PDU: the slot holds whatever was there before
     return [('slot-none', lambda: None),
             ('slot-last-sent', lambda: e2.make_primitive(('accept',))),
             ('slot-last-received', dec(P.AAssociateRqPDU, e2.std_rq())),
-            ('slot-pdata', dec(P.PDataTfPDU, e2.pdata(1, 3, e2.echo_cmd())))]
+            ('slot-pdata', dec(P.PDataTfPDU, e2.pdata(1, 3, e2.echo_cmd())))] + bad
 
 
 def _store_data():
@@ -146,7 +153,12 @@ def run_cell(cell):
     n = int(evname[3:].rstrip('cp'))
     exc = None
     try:
-        sm.action(n - 1)
+        if cfg.get('through_evt10'):
+            if sta not in (6, 7):
+                return [], ('skipped', 'n/a')
+            sm.action(9)
+        else:
+            sm.action(n - 1)
     except Exception as e:  # noqa
         exc = e
     content_bad = None
